@@ -72,6 +72,7 @@ PROPS = {
         "level": "model_checking",
         "units": [
             arms("c03_", "VmIntervalEval::eval"),
+            JitSmtUnit(["interval"]),
             KaniUnit("kernels", "c03_", INTERVAL_FNS + ["fidget_core::context::{UnaryOpcode,BinaryOpcode}::eval"],
                      {"width": "all 2^32 bit patterns per endpoint/point for selection-shaped and monotone-libm kernels",
                       "lattice": LATTICE, "unwind": 8},
@@ -82,6 +83,7 @@ PROPS = {
         "level": "model_checking",
         "units": [
             arms("c20_", "VmPointEval::eval / VmIntervalEval::eval choice clauses (value, recorded choice, simplify flag, one slot consumed)"),
+            JitSmtUnit(["point", "interval"], name_filter=("Min", "Max", "And", "Or", "choices")),
             KaniUnit("kernels", "c20_", ["<f32 as FloatExt>::{min_choice,max_choice,and_choice,or_choice}",
                                          "Interval::{min_choice,max_choice,and_choice,or_choice}",
                                          "Grad::{min,max,and,or}", "Choice::bitor_assign"],
